@@ -46,7 +46,9 @@ private:
 
     ConstGenericSparseMatrix m_mat;
     const Index m_n;
-    Eigen::SparseLU<SparseMatrix> m_solver;
+    // Eigen::SparseLU works on column-major matrices; with a row-major matrix type it
+    // factorizes the transpose. The shifted matrix is converted when it is passed to compute()
+    Eigen::SparseLU<Eigen::SparseMatrix<Scalar, Eigen::ColMajor, StorageIndex>> m_solver;
 
 public:
     ///
